@@ -170,6 +170,13 @@ def _events(args):
                     qe = rnd.randrange(qs, L + 2)
                 if rnd.random() < 0.1:
                     qs, qe = cur.start, cur.end
+                z = rnd.random()
+                if z < 0.06:      # an explicit 0 is a coordinate, not "unset": outside a collection that starts later
+                    qs = 0
+                elif z < 0.10:
+                    qe = 0
+                elif z < 0.14:    # one position outside the collection on either side
+                    qs, qe = (cur.start - 1, cur.end) if rnd.random() < 0.5 else (cur.start, cur.end + 1)
                 flags = [rnd.random() < 0.3, rnd.random() < 0.5, rnd.random() < 0.5]
                 op, ar = "pos", [qs, qe] + flags
                 call = lambda: cur.query_by_position(qs, qe, coding_only=flags[0], completely_within=flags[1],  # noqa
